@@ -60,6 +60,9 @@ func genC04(r *Rng, tier string, idx int) *Plan {
 	for i := 0; i < n; i++ {
 		k := Pick(r, keys)
 		switch x := r.Intn(100); {
+		case x < 4:
+			// one multi-key write over all keys: live volatile ones, expired ones and absent ones together
+			p.Ops = append(p.Ops, Op{Kind: "mset", Args: []string{k}})
 		case x < 18:
 			p.Ops = append(p.Ops, Op{Kind: "create", S: Pick(r, c04Kinds), Args: []string{k}, N: int64(r.Intn(6))})
 		case x < 40:
@@ -302,6 +305,9 @@ func (a *c04Run) step(op Op) {
 				a.s.AdvanceSync(time.Duration(a.p.K("interval_ms")) * time.Millisecond)
 			}
 		}
+	case "mset":
+		a.class = append(a.class, "mset/"+rawPhase)
+		a.mset()
 	case "create":
 		a.class = append(a.class, "create:"+op.S+"/"+rawPhase)
 		a.create(k, op.S, int(op.N), e)
@@ -917,6 +923,45 @@ func (a *c04Run) checkDump(op Op) {
 			}
 		}
 		if a.o.Sig != "" {
+			return
+		}
+	}
+}
+
+// mset writes all keys of the universe with one MSET. A key that was absent (or expired) must come out without a
+// deadline; a live volatile key keeps or drops its deadline (not defined by the documentation) - but its own, never
+// another key's.
+func (a *c04Run) mset() {
+	keys := []string{"k1", "k2", "k3"}
+	args := []string{"MSET"}
+	for _, k := range keys {
+		args = append(args, k, "m-"+k)
+		a.live(k) // expired keys become absent in the model
+	}
+	r := a.do(args...)
+	if r.IsError() {
+		a.fail("create-failed/mset", fmt.Sprintf("%q failed: %s", args, r))
+		return
+	}
+	for _, k := range keys {
+		e := a.m[k]
+		if e.exists && (e.deadline != 0 || e.hasAlt) {
+			*e = c04Key{exists: true, kind: "string", str: "m-" + k, deadline: e.deadline, hasAlt: true}
+			if e.deadline == 0 {
+				e.hasAlt = false
+			}
+		} else {
+			*e = c04Key{exists: true, kind: "string", str: "m-" + k}
+		}
+	}
+	for _, k := range keys {
+		e := a.m[k]
+		if e.hasAlt {
+			a.resolveAlt(k, e)
+			continue
+		}
+		if got, ok := intReply(a.do("PEXPIRETIME", k)); !ok || got != -1 {
+			a.fail("inherited-deadline/mset", fmt.Sprintf("after %q key %s, which had no live deadline of its own, reports PEXPIRETIME %d", args, k, got))
 			return
 		}
 	}
